@@ -38,6 +38,7 @@ def run(ctx, rep):
     rep.run(RI.rule_qualifier_forwarding, ctx, rep, "S4", min_sites=3)
     rep.run(RI.rule_name_default_forwarding, ctx, rep, "S5")
     rep.run(RI.rule_this, ctx, rep, "S6")
+    rep.run(RI.rule_template_argument_identity, ctx, rep, "S8")
     # the declaration is the input of every later instantiation: rewriting it in place makes the second
     # instantiation start from the first one's result
     rep.run(RA.rule_mutate_only_fresh, ctx, rep, "S7", "gtwrap/template_instantiator", P1_EXEMPT, min_sites=20)
